@@ -543,6 +543,10 @@ func c10txCase(c *vf.Ctx, i int) {
 			nout = r.Range(257, 300)
 			c.Inc("txs_with_more_than_256_outputs")
 		}
+		if r.Chance(1, 5000) { // output indices that do not fit two bytes
+			nout = 65537 + r.Intn(4)
+			c.Inc("txs_with_more_than_65536_outputs")
+		}
 		for n := 0; n < nout; n++ {
 			s, cl := c10pkScript(r, p)
 			classes[cl] = true
